@@ -135,12 +135,24 @@ def make_cases(chk, rng):
         ent = " ".join((fs(F(rng.randint(-5, 5) or 2, rng.choice([1, 2]))) if mask[a][b] else ".") for a in range(r) for b in range(c))
         dl = " ".join(fs(F(rng.randint(1, 9), rng.choice([1, 4]))) for _ in range(r))
         dr = " ".join(fs(F(rng.randint(1, 9), rng.choice([1, 4]))) for _ in range(c))
-        L = [f"util.transpose {r} {c} {ent}", f"util.scale {r} {c} {ent} {dl} {dr}"]
+        L = [f"util.transpose {r} {c} {ent}", f"util.scale {r} {c} {ent} {dl} {dr}",
+             f"csc.transpose {r} {c} {ent}", f"csc.scale {r} {c} {ent} {dl} {dr}"]
         n = r
         sm = [[(rng.random() < 0.4) for _ in range(n)] for _ in range(n)]
         A = qd_values(rng, n, sm)
         L.append(f"ord.amd {n} {n} {entries(A, sm, n)} {' '.join(fs(F(rng.randint(-3, 3))) for _ in range(n))}")
         cases.append({"name": f"u{i}", "lines": L, "meta": {"kind": "utils", "n": n}})
+    # storage level (CSC arrays compared, not the dense view): every pattern of every shape up to 3 x 3
+    k = 0
+    for r in range(1, 4):
+        for c in range(1, 4):
+            for bits in itertools.product([False, True], repeat=r * c):
+                ent = " ".join((fs(F(rng.randint(1, 9), rng.choice([1, 2, 3]))) if bits[a * c + b] else ".") for a in range(r) for b in range(c))
+                dl = " ".join(fs(F(rng.randint(1, 9), rng.choice([1, 4]))) for _ in range(r))
+                dr = " ".join(fs(F(rng.randint(1, 9), rng.choice([1, 4]))) for _ in range(c))
+                cases.append({"name": f"csc{k}", "lines": [f"csc.transpose {r} {c} {ent}", f"csc.scale {r} {c} {ent} {dl} {dr}"],
+                              "meta": {"kind": "csc-storage", "n": r}})
+                k += 1
     return cases
 
 
@@ -207,7 +219,9 @@ def run(replay=None):
     chk.cov["rule"] = ("all upper-triangular patterns with full diagonal for n<=5 (1+2+8+64+1024) with quasi-definite value sets incl. exact "
                        "zero-pivot-inducing ones, all permutations for n<=4 (quick: sampled for n=4), random sparse n<=16 (40 thorough); dense "
                        "LDLTNoPivot Lower/Upper at sizes across the blocking threshold (31,32,33; thorough also 64..257); transpose, diagonal "
-                       "scaling, AMD consistency on random rectangular patterns incl. empty rows/columns")
+                       "scaling, AMD consistency on random rectangular patterns incl. empty rows/columns; storage level (the three CSC arrays, "
+                       "not the dense view) for transpose_no_allocation / pre_mult_diagonal / post_mult_diagonal against the loop-level "
+                       "Csc model: every pattern of every shape up to 3x3 and the random rectangular ones")
     for c in cases[:2]:
         chk.sample({"case": c["name"], "line": c["lines"][0][:200]})
     if proof_ok is False and not chk.violations:
